@@ -12,4 +12,12 @@ PROPS = {
         "guards": ["op-ok", "409", "idempotent-repeat", "stale-vs-newer-epoch"],
         "parts": [{"engine": "lease", "test": "TestProp_C04_Transport", "quick": 3000, "thorough": 300000}],
     },
+    "C05": {
+        "rule": "transport tier: enqueue (now / future next_run_at), Pull HTTP dequeue with batch 0..1000 against a generated max_batch (1..100), nack with delay, "
+                "clock moves around due instants and the 100ms lease expiry on two routes; the handler must return exactly min(batch capped at max_batch, "
+                "ready messages of that route) and only ready ones; non-trivial = a request above max_batch with more ready messages than max_batch",
+        "assumptions": [SAMPLED],
+        "guards": ["capped-by-max-batch", "returned"],
+        "parts": [{"engine": "lease", "test": "TestProp_C05_Transport", "quick": 2000, "thorough": 200000}],
+    },
 }
